@@ -74,7 +74,17 @@ def cases(ctx):
         c = gen.rand_circuit(r, n_in=r.randint(2, 4), n_gates=r.randint(3, 9), max_fanin=3)
         yield {"op": "insert_registers", "c": proj(c), "k": r.choice([1, 2]), "twice": True, "src": "TWICE"}
         # another suffix for the inserted q nets: the requested name may exist already (n1 + "" + "2" = n12), uid then picks another
-        yield {"op": "insert_registers", "c": proj(c), "k": r.choice([1, 2]), "qs": r.choice(["", "_", "_q_"]), "src": "QSUF"}
+        k, qs = r.choice([1, 2]), r.choice(["", "_", "_q_"])
+        depth = {n: c.fanin_depth(n) for n in c.nodes()}
+        inc = round(max(depth.values()) / (k + 1))
+        at = sorted(n for n in depth if inc >= 1 and depth[n] == inc)
+        other = sorted(n for n in c.nodes() if c.type(n) != "input" and n not in at)
+        if at and other and r.random() < 0.7:
+            # the name the first inserted q net asks for is taken: uid has to pick another one, and that one must be wired
+            import networkx as nx
+
+            nx.relabel_nodes(c.graph, {r.choice(other): "%s%s%d" % (r.choice(at), qs, inc)}, copy=False)
+        yield {"op": "insert_registers", "c": proj(c), "k": k, "qs": qs, "src": "QSUF"}
     # FO: one driver (input / gate / inverter / output gate) with fan-out 1..9, k = 2..5
     for drv in ("input", "and", "not", "outgate", "const"):
         for m in range(1, 10):
